@@ -87,6 +87,7 @@ def check(case, mon, ctx):
         mon.violation('decode-raises', {'exception': repr(e)[:300]})
         return
     hyps = list(boh)
+    mon.observe('hypotheses', [(x.transcript, round(float(x.vis_sc), 9), round(float(x.lm_sc), 7)) for x in hyps])
     totals = []
     lm_scores = set()
     for hyp in hyps:
